@@ -196,7 +196,7 @@ C("C19", "TestC19", P(300, timeout=900), P(800, 16, 2400), race=True,
 
 C("C18", "TestC18", P(20000, timeout=900), P(100000, 16, 3000), fuzz={"target": "FuzzReader", "pkg": "checks", "seconds": 300},
   rule="rapid-generated small valid tables of every layout, damaged by 1..4 edits: bit flips, byte sets (hostile constants), truncations, splices from a second table, byte insertions, and overwrites of structural fields located with specdec "
-       "(version, block size, hash id, block type/length, first records, restart counts/offsets, footer offsets) with 1/2/3/8-byte hostile words, and 'redirects' (the position varint of an index entry or object record rewritten to the offset of another or the same block, same encoded length: cycles and type confusion in the index descent); the footer copy and CRC are repaired in 5/6 of the cases so that the block decoders are reached; "
+       "(version, block size, hash id, block type/length, first records, restart counts/offsets, footer offsets) with 1/2/3/8-byte hostile words, and 'redirects' (the position varint of an index entry or object record rewritten to the offset of another or the same block, same encoded length: cycles and type confusion in the index descent) and hostile varints (huge / over-long encodings over count, position and key-length fields); the footer copy and CRC are repaired in 5/6 of the cases so that the block decoders are reached; "
        "target: NewReader, full scans, SeekRef/SeekLog/RefsFor for original and foreign keys, the same through one- and two-table NewMerged; "
        "oracle: every call returns records or an error - a panic, an iterator yielding more records than the file has bytes, more than 64 MiB allocated for a KiB-sized file, or no return within 60 s is a violation; "
        "thorough additionally runs the native coverage-guided fuzzer on the same oracle; non-trivial = the damaged file still opens; distinct = hash of the case JSON",
